@@ -124,12 +124,9 @@ func c08profiles() []c08profile {
 	}
 }
 
-func c08composition(c *core.Ctx, quick bool) (runs, agreed int, err error) {
-	bin, _, err := buildMO(c)
-	if err != nil {
-		return 0, 0, err
-	}
-	tdir := filepath.Join(c.Scratch, "c08comp")
+// c08compSetup writes the custom template and schema files the profiles refer to and returns their environment
+// and the source files common to all profiles.
+func c08compSetup(tdir string) (c08compEnv, map[string]string) {
 	core.WriteTree(tdir, map[string]string{
 		"strict/probe.templ": core.ProbeTemplate, "strict/probe.templ.schema.json": `{"type":"object","additionalProperties":false,"properties":{"ok":{"type":"boolean"}}}`,
 		"schemas/second.json": `{"type":"object","additionalProperties":false,"required":["other"],"properties":{"other":{"type":"integer"}}}`,
@@ -140,6 +137,57 @@ func c08composition(c *core.Ctx, quick bool) (runs, agreed int, err error) {
 		"rt1/rt1.go": "package rt1\n\ntype R struct{ N int }\n\ntype RI interface{ Foo() int }\n",
 		"rt2/rt2.go": "package rt2\n\ntype R2 struct{ N int }\n\ntype A2 = R2\n\ntype RI2 interface{ Foo() int }\n",
 	}
+	return env, common
+}
+
+// c08compConfig merges the package entries of the given profiles (several profiles of one source package: their
+// interface lists are united) into one configuration.
+func c08compConfig(profs []c08profile, set []int, env c08compEnv) core.M {
+	pkgs := core.M{}
+	for _, i := range set {
+		for k, v := range profs[i].pkgs(env) {
+			if prev, ok := pkgs[k].(core.M); ok {
+				merged := core.M{}
+				for n, x := range prev["interfaces"].(core.M) {
+					merged[n] = x
+				}
+				for n, x := range v.(core.M)["interfaces"].(core.M) {
+					merged[n] = x
+				}
+				pkgs[k] = core.M{"config": prev["config"], "interfaces": merged}
+				continue
+			}
+			pkgs[k] = v
+		}
+	}
+	return core.M{"log-level": "error", "force-file-write": true, "packages": pkgs}
+}
+
+// c08AllProfiles is the configuration with every profile at once plus all source files: a rich multi-package
+// scenario that C06 explores under controlled map orders and re-runs.
+func c08AllProfiles(tdir string) (map[string]string, core.M) {
+	env, common := c08compSetup(tdir)
+	profs := c08profiles()
+	files := map[string]string{}
+	for k, v := range common {
+		files[k] = v
+	}
+	all := make([]int, len(profs))
+	for i, p := range profs {
+		all[i] = i
+		for k, v := range p.files {
+			files[k] = v
+		}
+	}
+	return files, c08compConfig(profs, all, env)
+}
+
+func c08composition(c *core.Ctx, quick bool) (runs, agreed int, err error) {
+	bin, _, err := buildMO(c)
+	if err != nil {
+		return 0, 0, err
+	}
+	env, common := c08compSetup(filepath.Join(c.Scratch, "c08comp"))
 	profs := c08profiles()
 	type outcome struct {
 		exit  int
@@ -155,25 +203,9 @@ func c08composition(c *core.Ctx, quick bool) (runs, agreed int, err error) {
 		for k, v := range common {
 			files[k] = v
 		}
-		pkgs := core.M{}
 		for _, i := range set {
 			for k, v := range profs[i].files {
 				files[k] = v
-			}
-			for k, v := range profs[i].pkgs(env) {
-				if prev, ok := pkgs[k].(core.M); ok {
-					// several profiles of one source package (same package config): their interface lists are united
-					merged := core.M{}
-					for n, x := range prev["interfaces"].(core.M) {
-						merged[n] = x
-					}
-					for n, x := range v.(core.M)["interfaces"].(core.M) {
-						merged[n] = x
-					}
-					pkgs[k] = core.M{"config": prev["config"], "interfaces": merged}
-					continue
-				}
-				pkgs[k] = v
 			}
 		}
 		// all profiles' sources are always present (so that only the configuration differs between the runs)
@@ -182,7 +214,7 @@ func c08composition(c *core.Ctx, quick bool) (runs, agreed int, err error) {
 				files[k] = v
 			}
 		}
-		files[".mockery.yml"] = core.YAML(core.M{"log-level": "error", "force-file-write": true, "packages": pkgs})
+		files[".mockery.yml"] = core.YAML(c08compConfig(profs, set, env))
 		seq.Lock()
 		seq.n++
 		name := fmt.Sprintf("c08comp-%d", seq.n)
